@@ -251,6 +251,7 @@ type c12Req struct {
 	JSONResp  bool              `json:"json_response,omitempty"` // the handler is configured with JSONResponse
 	Notif     bool              `json:"notification,omitempty"`  // stateless: the POST carries a notification, not a call
 	Prelude   bool              `json:"prelude,omitempty"`       // the same handler first serves a request that arrived on a non-loopback address (a server listening on 0.0.0.0)
+	Wrapped   bool              `json:"wrapped,omitempty"`       // the violating message travels as the only element of a JSON array
 }
 
 func b64h(s string) string { return "=?base64?" + base64.StdEncoding.EncodeToString([]byte(s)) + "?=" }
@@ -408,6 +409,12 @@ func genC12Req(r *vh.Rand) c12Req {
 	case "param-deep-mismatch":
 		q.Headers["Mcp-Param-Deep"] = enc(deep + "!")
 		q.Want, q.WantCode = []int{400}, -32020
+	}
+	if q.WantCode == -32020 && r.Chance(1, 4) {
+		// the same violating message as the only element of a JSON array: whatever the server makes of arrays,
+		// the header mismatch must not get past it (any 4xx, nothing dispatched)
+		q.Body, q.Wrapped = "["+q.Body+"]", true
+		q.Want, q.WantCode = []int{400, 404, 405, 409, 413, 415, 422}, 0
 	}
 	return q
 }
